@@ -5,6 +5,7 @@ import PT.Iter
 import PT.View
 import PT.SetOps
 import PT.Spec
+import PT.Retain
 /-!
 # `ptdriver`: line protocol → model outputs (`M …`) and specification outputs (`S …`)
 
@@ -675,7 +676,7 @@ def step {w : Nat} (st : St w) (line : String) : Res w :=
         match parsePred w predToks.dropLast with
         | some f =>
           let calls := m.retainCalls stop
-          let m' := m.retain f stop
+          let m' := m.retainRec f stop
           let panicked := match stop with | some k => decide (k ≤ m.root.postorder.length) | none => false
           -- specification: every entry exactly once (in some order); with a panic at call k the
           -- entries rejected among the first k-1 calls are gone
